@@ -10,6 +10,18 @@ Lemma ok_inv e c plan t : is_ok (deliver e c plan t) = true ->
                             r_calls := h_dc h'; r_dirty := h' |}.
 Proof. unfold is_ok, deliver. destruct (handler e t (start c plan)) as [[a| | |] h']; cbn; try discriminate. eauto. Qed.
 
+Lemma encode_sender_field m bz : encode_message m = Some bz -> slice 20 52 bz = m_sender m.
+Proof.
+  intros E. pose proof (encode_message_some _ _ E) as (Ls&Lr&Lc). unfold encode_message in E.
+  rewrite Ls, Lr, Lc in E. cbn [Nat.eqb negb] in E.
+  assert (bz = be_enc 4 (m_version m) ++ be_enc 4 (m_src m) ++ be_enc 4 (m_dst m) ++ be_enc 8 (m_nonce m) ++ m_sender m ++ m_recipient m ++ m_caller m ++ m_body m) as -> by congruence. clear E.
+  set (hd := be_enc 4 (m_version m) ++ be_enc 4 (m_src m) ++ be_enc 4 (m_dst m) ++ be_enc 8 (m_nonce m)).
+  assert (length hd = 20) as Lh by (subst hd; rewrite !app_length, !be_enc_length; reflexivity).
+  assert (be_enc 4 (m_version m) ++ be_enc 4 (m_src m) ++ be_enc 4 (m_dst m) ++ be_enc 8 (m_nonce m) ++ m_sender m ++ m_recipient m ++ m_caller m ++ m_body m
+          = hd ++ m_sender m ++ (m_recipient m ++ m_caller m ++ m_body m)) as -> by (subst hd; rewrite <- !app_assoc; reflexivity).
+  unfold slice. rewrite (skipn_app_len hd _ 20 Lh). change (52 - 20) with 32. apply firstn_app_len. exact Ls.
+Qed.
+
 Section Money.
   Variable e : env.
 
